@@ -131,6 +131,7 @@ import sys, json, xml.parsers.expat
 def parse(text):
     stack = []; roots = []; stray = []; ncomments = [0]
     p = xml.parsers.expat.ParserCreate()
+    p.buffer_text = True
     def start(name, attrs):
         el = {"tag": name, "attrs": attrs, "children": []}
         (stack[-1]["children"] if stack else roots).append(el)
@@ -155,13 +156,32 @@ docs = json.load(open(sys.argv[1], encoding="utf-8"))
 json.dump([parse(d) for d in docs], sys.stdout)
 "#;
 
+/// Parse every document with expat; the batch is split over a few python processes.
 fn python_parse(docs: &[String]) -> Vec<J> {
+    let n = vcommon::n_workers().clamp(1, 2).min(docs.len().max(1));
+    let per = docs.len().div_ceil(n).max(1);
+    let chunks: Vec<&[String]> = docs.chunks(per).collect();
+    let mut out: Vec<Vec<J>> = vec![];
+    std::thread::scope(|s| {
+        let hs: Vec<_> = chunks
+            .iter()
+            .enumerate()
+            .map(|(k, c)| s.spawn(move || python_parse_chunk(c, k)))
+            .collect();
+        for h in hs {
+            out.push(h.join().unwrap_or_else(|_| vcommon::machinery_failure("C27: python driver thread panicked")));
+        }
+    });
+    out.into_iter().flatten().collect()
+}
+
+fn python_parse_chunk(docs: &[String], k: usize) -> Vec<J> {
     if docs.is_empty() {
         return vec![];
     }
     let dir = vcommon::verif_root().join(".run");
     let _ = std::fs::create_dir_all(&dir);
-    let path = dir.join(format!("c27-xml-{}.json", std::process::id()));
+    let path = dir.join(format!("c27-xml-{}-{k}.json", std::process::id()));
     if std::fs::write(&path, serde_json::to_string(docs).unwrap()).is_err() {
         vcommon::machinery_failure("C27: cannot write the XML batch file");
     }
